@@ -272,6 +272,8 @@ def run_c10(prop, tier):
                        "dumped through reader::Container and compared item by item with the logical container; distinct = different configuration; all non-trivial")
     rep.cov["exhaustive"] = False
     rep.assumptions += ["which file holds which pack identity is taken from the independent decoder"]
+    import p_lifecycle
+    p_lifecycle.stage(rep, prop, tier, binary)      # ReadIsLogicalOrReported, end to end (root module Jubako.tla)
     return rep.finish()
 
 
